@@ -13,7 +13,7 @@ AGENT_OVERLAY = {"agent/zz_verif_common_test.go": "agent/verif_common_test.go",
 class C01(Prop):
     pid = "C01"
     props_file = "Props/C01.v"
-    model_targets = ["theories/Server/ProxyCheck.vo", "theories/Agent/SystemCheck.vo"]
+    model_targets = ["theories/Server/ProxyCheck.vo", "theories/Server/RelayCheck.vo", "theories/Agent/SystemCheck.vo"]
     technique = "Coq LTS invariants over all schedules (proxy core + agent workers + arbitrary backend, end-to-end correlation) + trace acceptance of real runs (proxy and agent code under the race detector) by the extracted model + distinct-ID and race checks for the atomic-draw hypothesis"
     level_text = ("C01_proxy_correlation, C01_end_to_end, C01_one_response, C01_at_most_one_client prove, for every number of clients and every interleaving of arrivals, hand-offs, fetches, backend completions, uploads "
                   "(also duplicate uploads, uploads for unknown IDs, cancellations), that with pairwise distinct IDs a client receives exactly backend(its own request, n) for a single invocation n and nobody else receives it. "
@@ -82,8 +82,24 @@ class C01(Prop):
                     res.append(("agent:mixed-request-parts", "backend invocation for %s saw header/body of another request" % v["tok"], dict(base, invocation=v)))
         return res
 
+    def search(self, ctx, obs, broken):
+        """A broken relay obligation or correspondence: the exchanges of this very run on which the relay model, instantiated with
+        what the source does now, passes through a racing state are the failing histories."""
+        res = []
+        for b in broken:
+            if b.get("kind") == "correspondence" and b.get("name") == "RelayCheck.relay_obs" and "both goroutines" in str(b.get("detail")):
+                c = b.get("case") or {}
+                res.append(("relay:trailer-map-raced-after-client-hung-up", "a client hung up in the middle of its response and the rest of the upload (last chunk, trailers) arrived afterwards: "
+                            "the client's handler goes on to read resp.Trailer while the upload handler's last Read stores into it (concurrent map access: the runtime ends the proxy with every request in flight); " + str(b.get("detail")),
+                            {"driver": "TestVerifServerSchedules; the observed exchange replayed on Server/Relay.v with the guard read off the source (RelayCheck.relay_guarded)", "exchange": c}))
+                break
+        return res
+
     def model_check(self, ctx, obs):
         m1, n1, info1 = servsched.model_check(ctx, obs["server"]["schedules"], "cases_c01_server")
+        m1r, n1r, info1r = servsched.relay_check(ctx, obs["server"]["schedules"], "cases_c01_relay")
+        m1, n1 = m1 + m1r, n1 + n1r
+        info1 = dict(info1, **info1r)
         items, rounds = [], obs["rounds"]
         for r in rounds:
             idn, order = {}, []
